@@ -25,6 +25,11 @@ class Priced:
 
 
 @dataclass
+class Special(Numbered):  # a subclass of one member of the unions below (what xsi:type gives the xml parser)
+    extra: Optional[str] = field(default=None, metadata={"type": "Element"})
+
+
+@dataclass
 class UnionHolder:
     item: Optional[Union[Numbered, Named]] = field(default=None, metadata={"type": "Element"})
     items: List[Union[Numbered, Priced, Named]] = field(default_factory=list, metadata={"type": "Element"})
@@ -54,6 +59,8 @@ def instances():
         WildList(items=[WildGuest(vf_c04_guest_code=1, vf_c04_guest_note="a"), AnyElement(qname="g", text="t"), WildGuest(vf_c04_guest_code=2, vf_c04_guest_note="b")]),
         WildHolder(any_element=AnyElement(qname=None, text="text", children=[AnyElement(qname="foo", text="")])),
         WildHolder(any_element=AnyElement(qname="named", text="t", tail=None, attributes={"k": "v"})),
+        UnionHolder(item=Special(code=5, extra="e")),
+        UnionHolder(items=[Special(code=1, extra="x"), Named(code="n")]),
         UnionHolder(item=Named(code="abc")),
         UnionHolder(item=Numbered(code=7)),
         UnionHolder(item=Named(code="x-1", note="n")),
